@@ -117,6 +117,17 @@ Definition corr_code (c : acase) : Z :=
     end end.
 '''
 ALIGN_CHECK = ALIGN_CORR + "Definition check (c : acase) : Z := corr_code c.\n"
+# C15: additionally the verified checker disjoint_dirb (props/C15.v: C15_checker_dir_spec) on the resolver output; it is evaluated on the model's
+# segments only when they coincide with the implementation's (code 0), so it decides the implementation's output
+ALIGN_CHECK_C15 = ALIGN_CORR.replace('Require Import Py Pairing Core Multi Cigar Checkers.', 'Require Import Py Pairing Core Multi Cigar Checkers ResolverProofs3.') + '''
+Definition check (c : acase) : Z :=
+  let k := corr_code c in if negb (k =? 0) then k else
+  match c with (p, it, refp, rlen_, qp, qlen_, qshift, peaks, rev_, _) =>
+    match aligner_align (mkparams p) it (mkMap 1 rlen_ refp 0) (mkMap 7 qlen_ qp qshift) peaks rev_ with
+    | Ok segs => if disjoint_dirb (if rev_ then -1 else 1) segs then 0 else 2
+    | Err => 0
+    end end.
+'''
 # C01: additionally the verified checker valid_rowb (proofs/CheckersProofs.v: valid_rowb_spec) on the pairs the IMPLEMENTATION returned
 ALIGN_CHECK_C01 = ALIGN_CORR + '''
 Definition epairs (esegs : list cseg) : list (Z * Z) :=
